@@ -71,7 +71,13 @@ class Fn:
     methods: {(kind, method name): handler(self, recv(code,kind), args) -> (code, kind)}
     """
 
-    def __init__(self, env, ret_kind, calls=None, attrs=None, methods=None, coerce=None):
+    def __init__(self, env, ret_kind, calls=None, attrs=None, methods=None, coerce=None, fresh_calls=(), strict_inplace=False):
+        # purity rule: an augmented assignment (x += e, x *= e ...) updates its target IN PLACE when the
+        # target is a NumPy/pandas object, so it is accepted only when the target is known to be a fresh
+        # local value (bound from arithmetic, a constant, or a call listed in fresh_calls) -- never a
+        # parameter, a call result that may alias caller data, or an unpacked component of one.
+        self.fresh_calls = set(fresh_calls)
+        self.strict_inplace = strict_inplace   # opt-in (clients whose values are arrays/series)
         self.env0 = dict(env)
         self.ret_kind = ret_kind
         self.calls = calls or {}
@@ -182,10 +188,13 @@ class Fn:
                 fail(s, "multiple assignment targets")
             c, k = self.expr(s.value, env)
             pat, env2 = self.bind(s.targets[0], k, env)
+            if isinstance(s.targets[0], ast.Name):
+                self.mark_fresh(env2, s.targets[0].id, self.is_fresh_value(s.value))
             return f"let {pat} := {c} in\n  {self.block(rest, env2)}"
         if isinstance(s, ast.AugAssign):
             if not isinstance(s.target, ast.Name):
                 fail(s, "augmented assignment to non-name")
+            self.require_fresh(s, env, s.target.id)
             a, ka = self.expr(s.target, env)
             b, kb = self.expr(s.value, env)
             c, k = self.binop(s, type(s.op), a, ka, b, kb)
@@ -205,6 +214,23 @@ class Fn:
             return self.loop(s, rest, env)
         fail(s, "unsupported statement")
 
+    def is_fresh_value(self, node) -> bool:
+        if isinstance(node, (ast.BinOp, ast.Constant, ast.UnaryOp, ast.Compare)):
+            return True
+        if isinstance(node, ast.Call) and dotted(node.func) in self.fresh_calls:
+            return True
+        return False
+
+    @staticmethod
+    def mark_fresh(env, name, fresh):
+        cur = set(env.get("__fresh__", (frozenset(), None))[0])
+        (cur.add if fresh else cur.discard)(name)
+        env["__fresh__"] = (frozenset(cur), "META")
+
+    def require_fresh(self, node, env, name):
+        if self.strict_inplace and name not in env.get("__fresh__", (frozenset(), None))[0]:
+            fail(node, f"in-place update of {name}, which may share storage with the caller's data")
+
     def bind(self, target, kind, env):
         env2 = dict(env)
         if isinstance(target, ast.Name):
@@ -216,6 +242,7 @@ class Fn:
                 if not isinstance(e, ast.Name):
                     fail(target, "nested unpacking")
                 env2[e.id] = (e.id, k)
+                self.mark_fresh(env2, e.id, False)
                 names.append(e.id)
             return "'(" + ", ".join(names) + ")", env2
         fail(target, f"cannot bind a value of kind {kind}")
@@ -234,6 +261,7 @@ class Fn:
         body_code = []
         for b in s.body:
             if isinstance(b, ast.AugAssign) and isinstance(b.target, ast.Name):
+                self.require_fresh(b, inner, b.target.id)
                 a, ka = self.expr(b.target, inner)
                 v, kv = self.expr(b.value, inner)
                 c, k = self.binop(b, type(b.op), a, ka, v, kv)
